@@ -234,6 +234,45 @@ orc_code_chunk_free (OrcCodeChunk *chunk)
   orc_global_mutex_unlock ();
 }
 
+#ifdef ORC_VERIF_HOOKS
+/* Verification hook (compiled only with -DORC_VERIF_HOOKS): read-only walk
+ * over the code regions and their chunk lists, in list order.  Takes no lock;
+ * the caller decides whether to hold the global mutex. */
+typedef void (*OrcVerifRegionFunc) (void *user, int region_index,
+    void *write_ptr, void *exec_ptr, int size);
+typedef void (*OrcVerifChunkFunc) (void *user, int region_index,
+    int chunk_index, int offset, int size, int used, int links_ok);
+
+int orc_verif_codemem_walk (OrcVerifRegionFunc region_func,
+    OrcVerifChunkFunc chunk_func, void *user);
+
+int
+orc_verif_codemem_walk (OrcVerifRegionFunc region_func,
+    OrcVerifChunkFunc chunk_func, void *user)
+{
+  int i;
+
+  for (i = 0; i < orc_code_n_regions; i++) {
+    OrcCodeRegion *region = orc_code_regions[i];
+    OrcCodeChunk *chunk;
+    OrcCodeChunk *prev = NULL;
+    int j = 0;
+
+    if (region_func)
+      region_func (user, i, region->write_ptr, region->exec_ptr, region->size);
+    for (chunk = region->chunks; chunk && j < 1000000; chunk = chunk->next) {
+      int links_ok = (chunk->prev == prev) && (chunk->region == region);
+      if (chunk_func)
+        chunk_func (user, i, j, chunk->offset, chunk->size, chunk->used,
+            links_ok);
+      prev = chunk;
+      j++;
+    }
+  }
+  return orc_code_n_regions;
+}
+#endif
+
 #ifdef HAVE_CODEMEM_MMAP
 static int
 orc_code_region_allocate_codemem_dual_map (OrcCodeRegion *region,
